@@ -108,7 +108,7 @@ let take_cps (toks : string list) : int list * string list =
 
 type record = {
   id : string; stream : string; hex : bool;
-  mutable text : int list; mutable domain : bool;
+  mutable text : int list; mutable domain : bool; mutable digits : int list;
   mutable toks : (int * int * int * int list) list;      (* kind line col value, reversed *)
   mutable prs : (int list * BZ.t option) list;
   mutable fmt : (BZ.t * int list) list;
@@ -147,7 +147,8 @@ let process (r : record) =
   if r.domain then begin
     incr compared;
     let text = str_of_cps r.text in
-    match lex text with
+    let ud (c : n) : bool = List.mem (int_of_n c) r.digits in
+    match lex ud text with
     | None -> mismatch r "lex-fuel" "model lexer ran out of fuel"
     | Some raw ->
       (* tokens *)
@@ -208,7 +209,7 @@ let process (r : record) =
 
 (* ---- static tables ---- *)
 let check_tables (kws : (int * int list) list) (puncts : (int * int) list) (newsyms : int list list) (access : (int * int list) list) =
-  let dummy = { id = "tables"; stream = "tables"; hex = false; text = []; domain = false; toks = []; prs = []; fmt = [];
+  let dummy = { id = "tables"; stream = "tables"; hex = false; text = []; domain = false; digits = []; toks = []; prs = []; fmt = [];
                 parse = []; proj = []; wtext = None } in
   let m_kws = List.sort compare (List.map (fun (s, k) -> (int_of_n (keyword_index k), cps_of_str s)) keyword_table) in
   if List.sort compare kws <> m_kws then mismatch dummy "table-keywords" "keyword table differs";
@@ -238,11 +239,12 @@ let () =
       | "CASE", _ ->
         (match rest () with
          | [id; stream; hex] ->
-           cur := Some { id; stream; hex = (hex = "1"); text = []; domain = false; toks = []; prs = []; fmt = [];
+           cur := Some { id; stream; hex = (hex = "1"); text = []; domain = false; digits = []; toks = []; prs = []; fmt = [];
                          parse = []; proj = []; wtext = None }
          | _ -> failwith "bad CASE")
       | "TEXT", Some r -> r.text <- fst (take_cps (rest ()))
       | "DOMAIN", Some r -> r.domain <- (rest () = ["1"])
+      | "DIGITS", Some r -> r.digits <- fst (take_cps (rest ()))
       | "TOK", Some r ->
         (match rest () with
          | k :: l :: c :: v -> r.toks <- (int_of_string k, int_of_string l, int_of_string c, fst (take_cps v)) :: r.toks
